@@ -143,6 +143,51 @@ def liquidity_rows(n):
 
 
 # ---------------------------------------------------------------------------------------------
+# C08 ledger residuals with the fee-remainder dust of known finding C08-fee-remainder-dust.  markethist_common's
+# classification is deliberately narrow (no swap inside the decrease); a decrease that swapped its profit to the
+# collateral token first (DecreasePositionSwapType::PnlTokenToCollateralToken: the secondary output is then empty)
+# leaks in exactly the same way -- do_pay_for_cost floors the unpaid fee remainder, converted to pnl tokens, to
+# zero -- and the swap itself is neutral for the holdings.  ExchangeProps!DustOf is the same criterion.
+def fee_dust_x(e, prev_r, r):
+    d = mh.fee_dust(e, prev_r, r)
+    if d or not (e["op"] == "decrease" and e["ok"] and e["ncb"] == 0 and prev_r is not None):
+        return d
+    if e["rx"]["sw1"] != "ok" or e["rx"]["step"]:
+        return None
+    p = e["ps"][e["arg"]["pos"] - 1]
+    tc, tp = mh._ix(p["cl"]), mh._ix(p["long"])
+    if tc == tp or p["col"] != 0 or e["rx"]["sec"] != 0:
+        return None
+    exc = [(e["r"]["fund"] if t == tc else 0) - e["r"]["cf"][t] - (r[t] - prev_r[t]) for t in (0, 1)]
+    pc = e["px"]["lmin"] if tc == 0 else e["px"]["smin"]
+    pp = e["px"]["lmin"] if tp == 0 else e["px"]["smin"]
+    if 0 < exc[tc] <= e["rx"]["feeCost"] and exc[tp] == 0 and exc[tc] * pc < pp:
+        return exc
+    return None
+
+
+def residuals_x(ev):
+    out, led, prev_r, dust = [], None, None, [0, 0]
+    for e in ev:
+        if e["reset"] or led is None:
+            led = {"in": [0, 0], "out": [0, 0], "cb": False}
+            prev_r, dust = None, [0, 0]
+        i, o = mh.step_in_out(e)
+        for t in (0, 1):
+            led["in"][t] += i[t]
+            led["out"][t] += o[t]
+        if e["ncb"]:
+            led["cb"] = True
+        r = [led["in"][t] - led["out"][t] - mh.holdings(e["m"], t) for t in (0, 1)]
+        d = fee_dust_x(e, prev_r, r)
+        if d:
+            dust = [dust[0] + d[0], dust[1] + d[1]]
+        out.append((r, led["cb"], list(dust), d))
+        prev_r = r
+    return out
+
+
+# ---------------------------------------------------------------------------------------------
 # classification of monitor failures (known findings of the owning property; nothing else is suppressed)
 def classify(ev, res, idx, mon, fails_at):
     e = ev[idx]
@@ -183,7 +228,7 @@ def classify(ev, res, idx, mon, fails_at):
 def judge(ctx, batch, cov, fails_out, drift_out):
     fails, drifts, r = ctx.validate_trace(TRACE, batch.trace, cfg=batch.cfg, timeout=3000)
     ev = vlib.read_ndjson(batch.trace)
-    res = mh.residuals(ev)
+    res = residuals_x(ev)
     what = {}
     for d in drifts:
         if isinstance(d, dict):
